@@ -408,6 +408,21 @@ pub fn build(tier: Tier) -> (Vec<Triple>, Vec<String>) {
         }
     }
     notes.push(format!("D: {} triples", out.len() - n0));
+    // E: all depth-2 terms over the narrow leaves (every constructor under every constructor)
+    let n0 = out.len();
+    let t2 = gen::terms(&alphabet_data(&LEAVES_NARROW), 2);
+    let small = ValDomain { cap: 6, ..ValDomain::tiny() };
+    for t in t2.iter().skip(t1n.len().min(81)).step_by(tier.pick(7, 1)) {
+        let vs = gen::values(&empty, t, &small, 3);
+        let n = vs.len();
+        for (k, v) in vs.into_iter().enumerate() {
+            // first, last and middle value of each type
+            if k == 0 || k + 1 == n || k == n / 2 {
+                out.push(Triple { env: empty.clone(), t: t.clone(), v, family: "E:depth2-all-terms" });
+            }
+        }
+    }
+    notes.push(format!("E: {} depth-2 types, {} triples", t2.len(), out.len() - n0));
     (out, notes)
 }
 
